@@ -362,7 +362,7 @@ class HistogramND(HistogramBase):
                 self._missed += weight
         else:
             self._frequencies[ixbin] += weight
-            self._errors2[ixbin] += weight**2
+            self._errors2[ixbin] += float(weight) ** 2 if isinstance(weight, np.generic) else weight**2
         return ixbin
 
     def fill_n(
